@@ -859,7 +859,13 @@ def check_path(st, func, results, problems):
                 what = ('not a handler (no __events__)' if not H else
                         f'a handler that maps {evname}' if A else
                         f'a handler that does not map {evname}')
-                if len(regs) != want_reg:
+                already = regkind == 'reg' and any(
+                    t_ == f'self.is_handler({obj})' and tr_ is True
+                    for t_, _n, tr_, _s in conds)
+                if len(regs) != want_reg and not (
+                        already and len(regs) == want_reg - 1):
+                    # (registering a handler that is_handler() reports as
+                    # registered changes nothing: same key, same elements)
                     bad = (f'for an object that is {what}: {len(regs)} '
                            f'call(s) of {regname}, expected {want_reg}'
                            + ('' if H else ' (the handler test is missing or '
